@@ -140,6 +140,7 @@ def run(ck):
         c03_e2e.run(ck)
     # (4) allocation units: model of bitfields_to_allocation_units vs the units of real runs
     vlib.coq_check_properties(ck, "theories/C03/AllocProperties.v")
+    vlib.coq_check_properties(ck, "theories/C03/ComposeProperties.v")
     import c03_alloc, tempfile, shutil
     tmp = tempfile.mkdtemp(prefix="c03a_", dir=vlib.CACHE)
     try:
